@@ -650,6 +650,8 @@ pub struct RunOut {
 	pub tracked: usize,
 	pub closure: &'static str,
 	pub final_snap: Option<Snap>,
+	/// commitment transactions O itself broadcast
+	pub own_commitments: Vec<String>,
 }
 
 pub struct Runner {
@@ -827,6 +829,9 @@ impl Runner {
 			self.bcast_cur += 1;
 			if self.is_relevant(&tx) {
 				self.relevant.insert(tx.compute_txid());
+				if tx.input.iter().any(|i| self.obs.funding_rev.contains_key(&i.previous_output)) {
+					self.out.own_commitments.push(tx.compute_txid().to_string());
+				}
 				self.rel_txs.insert(tx.compute_txid(), tx);
 			}
 		}
